@@ -19,6 +19,7 @@ import numpy as np
 import pandas as pd
 
 from .. import api
+from ..common import to_frac
 from ..kernels import selected_positions
 from .c05 import close
 
@@ -158,7 +159,7 @@ def crosstab_stream(res, rng, tier):
         for i, rl in enumerate(row_labels):
             for j, cl in enumerate(col_labels):
                 x = tab.iloc[i, j]
-                got[(rl, cl)] = None if pd.isna(x) else Fraction(float(x))
+                got[(rl, cl)] = None if pd.isna(x) else to_frac(x)
         do_row = margins in (True, "row")        # 'All' in the row keys
         do_col = margins in (True, "column")
         want = {}
